@@ -130,8 +130,9 @@ impl LeafH {
                     let _ = <&str>::try_from(t);
                     let _ = Arbitrary::try_from(t);
                     let _ = scpi::units::ElectricPotential::try_from(t);
-                    let _ = scpi::parser::expression::numeric_list::NumericList::try_from(t).map(|l| l.count());
-                    let _ = scpi::parser::expression::channel_list::ChannelList::try_from(t).map(|l| l.count());
+                    // list iterators do not advance past an error: stop at the first one
+                    let _ = scpi::parser::expression::numeric_list::NumericList::try_from(t).map(|l| l.take(64).take_while(|x| x.is_ok()).count());
+                    let _ = scpi::parser::expression::channel_list::ChannelList::try_from(t).map(|l| l.take(64).take_while(|x| x.is_ok()).count());
                 });
             }
         }
